@@ -46,6 +46,41 @@ Fixpoint enc (v : value) : list N :=
       flat_map (fun kv => N.of_nat (length (fst kv)) :: fst kv ++ enc (snd kv)) d
   end.
 
+(* n members / n entries with a given member decoder *)
+Definition dec_list (d : list N -> option (value * list N)) : nat -> list N -> option (list value * list N) :=
+  fix go (n : nat) (t : list N) : option (list value * list N) :=
+    match n with
+    | O => Some ([], t)
+    | S n' => match d t with
+              | Some (v, t') => match go n' t' with
+                                | Some (vs, t'') => Some (v :: vs, t'')
+                                | None => None
+                                end
+              | None => None
+              end
+    end.
+Definition dec_dict (d : list N -> option (value * list N)) : nat -> list N -> option (list (str * value) * list N) :=
+  fix go (n : nat) (t : list N) : option (list (str * value) * list N) :=
+    match n with
+    | O => Some ([], t)
+    | S n' =>
+        match t with
+        | kl :: t1 =>
+            match take_n (N.to_nat kl) t1 with
+            | Some (k, t2) =>
+                match d t2 with
+                | Some (v, t3) => match go n' t3 with
+                                  | Some (kvs, t4) => Some ((k, v) :: kvs, t4)
+                                  | None => None
+                                  end
+                | None => None
+                end
+            | None => None
+            end
+        | [] => None
+        end
+    end.
+
 Fixpoint dec (fuel : nat) (t : list N) : option (value * list N) :=
   match fuel with
   | O => None
@@ -70,41 +105,12 @@ Fixpoint dec (fuel : nat) (t : list N) : option (value * list N) :=
       | 5 :: n :: r =>
           match take_n (N.to_nat n) r with Some (s, r') => Some (VBytes s, r') | None => None end
       | 6 :: n :: r =>
-          match (fix go (n : nat) (t : list N) : option (list value * list N) :=
-                   match n with
-                   | O => Some ([], t)
-                   | S n' => match dec f t with
-                             | Some (v, t') => match go n' t' with
-                                               | Some (vs, t'') => Some (v :: vs, t'')
-                                               | None => None
-                                               end
-                             | None => None
-                             end
-                   end) (N.to_nat n) r with
+          match dec_list (dec f) (N.to_nat n) r with
           | Some (vs, r') => Some (VList vs, r')
           | None => None
           end
       | 7 :: n :: r =>
-          match (fix go (n : nat) (t : list N) : option (list (str * value) * list N) :=
-                   match n with
-                   | O => Some ([], t)
-                   | S n' =>
-                       match t with
-                       | kl :: t1 =>
-                           match take_n (N.to_nat kl) t1 with
-                           | Some (k, t2) =>
-                               match dec f t2 with
-                               | Some (v, t3) => match go n' t3 with
-                                                 | Some (kvs, t4) => Some ((k, v) :: kvs, t4)
-                                                 | None => None
-                                                 end
-                               | None => None
-                               end
-                           | None => None
-                           end
-                       | [] => None
-                       end
-                   end) (N.to_nat n) r with
+          match dec_dict (dec f) (N.to_nat n) r with
           | Some (kvs, r') => Some (VDict kvs, r')
           | None => None
           end
